@@ -379,6 +379,24 @@ def run(ctx: Ctx):
         if not (same_bits(got[0], want[0]) and same_bits(got[1], want[1])):
             ctx.violation("CphotAng.__call__", "batch-differs-from-one-at-a-time", "repeated showers at different ground sites under a location-dependent cloud model: " + describe_mismatch(got, want),
                           {"batch": nr, "scheduler": spec_name, "cloud_tops_by_site_mod_5": [repr(x) for x in tops]})
+    # ---- 3c'. the same shower listed several times in one batch (a scan grid that lists a point twice, N identical showers, [E, E, 2E]
+    # at fixed geometry): every copy gets its result
+    nd = 60
+    bd = make_events(rng, nd // 3)
+    dup = tuple(np.concatenate([a, a, a[::-1]]) for a in bd)          # every event three times, same site
+    refd = reference(kern, dup)
+    for spec_name, kw in (("synchronous", {}), ("threads", {"num_workers": 4})):
+        with quiet(), dask.config.set(scheduler=spec_name, **kw):
+            try:
+                gotd = kern(*dup, None)
+            except Exception as ex:  # noqa
+                ctx.violation("CphotAng.__call__", "unexpected-exception", f"a batch with repeated events raised {type(ex).__name__}: {str(ex)[:100]}", {"batch": nd, "scheduler": spec_name})
+                continue
+        ctx.case(("identical-events", spec_name)); ctx.count("identical_event_batches")
+        wantd = ref_arrays(refd, nd)
+        if not (np.shape(gotd[0]) == np.shape(wantd[0]) and same_bits(gotd[0], wantd[0]) and same_bits(gotd[1], wantd[1])):
+            ctx.violation("CphotAng.__call__", "batch-differs-from-one-at-a-time", "a batch that lists every shower three times (same ground site): " + describe_mismatch(gotd, wantd),
+                          {"batch": nd, "scheduler": spec_name, "distinct_showers": nd // 3})
     # ---- 3d. production-size batches (thousands of events, tens of partitions) through the REAL batch entry point with the
     # per-event evaluation replaced by a cheap function of the event: result i must be the result of event i
     import probekernel
